@@ -9,6 +9,9 @@ pub mod c10;
 pub mod c12;
 pub mod c13;
 pub mod c16;
+pub mod c17;
+pub mod c20;
+pub mod c21;
 pub mod c28;
 
 pub type MonFn = fn(&Ctx) -> Report;
@@ -20,6 +23,9 @@ pub fn registry() -> Vec<(&'static str, MonFn)> {
         ("c10", c10::run as MonFn),
         ("c12", c12::run as MonFn),
         ("c13", c13::run as MonFn),
+        ("c17", c17::run as MonFn),
+        ("c20", c20::run as MonFn),
+        ("c21", c21::run as MonFn),
         ("c28", c28::run as MonFn),
         ("c16k", c16::run_k as MonFn),
         ("c16d", c16::run_d as MonFn),
